@@ -104,6 +104,36 @@ def r_hist(A, ctx, scope, rule="R-HIST"):
                         "returned unsliced: its length is the budget, not the number of "
                         "iterations performed (n_iter_ = max_iter, trailing zeros)",
                    loc=loc(f, hdefs[0].ast))
+            # a slice bounded by the loop variable itself is one short when the budget is
+            # exhausted (the variable stops at the last index) - or one long when the loop is left
+            # before the store; the bound has to be a count of the stores
+            if stores and sliced and sf.loop is not None and isinstance(sf.loop.target, ast.Name):
+                sl = sf.ret_hist if isinstance(sf.ret_hist, ast.Subscript) else next(
+                    x for x in sf.ret_hist.args if isinstance(x, ast.Subscript))
+                up = sl.slice.upper if isinstance(sl.slice, ast.Slice) else None
+                n += 1
+                ctx.ob(rule, f"{f.fq}::slice-bound::{H}", not (isinstance(up, ast.Name) and up.id == sf.loop.target.id),
+                       what=f"history `{norm_src(sl)}` is cut at the loop variable `{sf.loop.target.id}`: after a "
+                            "run that uses its whole budget the variable is the last index, the entry of the last "
+                            "iteration is dropped (max_iter=1 returns an empty history)", loc=loc(f, sl))
+        # (b') after an entry is recorded the iterate is not replaced in the same iteration
+        # (a rejected / restarted candidate whose objective stays in the history)
+        if sf.loop is not None and sf.W:
+            for eid, val in entries:
+                for nd in cfg.stmts():
+                    a = nd.ast
+                    if nd.kind != "stmt" or not isinstance(a, ast.Assign) or not nd.loops:
+                        continue
+                    tg = a.targets[0]
+                    names = [x.id for x in (tg.elts if isinstance(tg, ast.Tuple) else [tg]) if isinstance(x, ast.Name)]
+                    if sf.W in names and cfg.dominated_by(nd.id, eid) and nd.id != eid \
+                            and cfg.nodes[eid].loops and nd.loops[-1] == cfg.nodes[eid].loops[-1]:
+                        n += 1
+                        ctx.ob(rule, f"{f.fq}::replaced-after-entry::{norm_src(a)[:60]}", False,
+                               what=f"`{norm_src(a)[:70]}` replaces the iterate after its objective was recorded in "
+                                    "the same iteration: the history keeps the objective of a point that is "
+                                    "discarded (last entry != objective of the returned point when the budget "
+                                    "ends there)", loc=loc(f, a))
         # (b) + (c)
         mut = _mutation_nodes(sf, flow)
         state = {x for x in (sf.W, sf.XW) if x}
